@@ -29,7 +29,20 @@ def run_cases(exe, lines, mode_prefix=None):
     return vlib.run_lines_isolating(exe, lines)
 
 
+_INVALID_N = re.compile(r"INVALID \d+")
+_ERR_KIND = re.compile(r"\bERR [A-Z][A-Za-z]+")
+
+
+def default_canon(out):
+    """canonical form for the model/implementation diff: error counts and error kinds are not part of any property
+    (a refactoring that merges two validation messages or returns another error variant is harmless)"""
+    if out is None:
+        return out
+    return _ERR_KIND.sub("ERR", _INVALID_N.sub("INVALID", out))
+
+
 def run_property(P, pid, tier, seed, replay):
+    canon = getattr(P, "canon", default_canon)
     t0 = time.time()
     rng = vlib.Rng(seed)
     breaks = []          # proof / translator / audit / build / correspondence breaks
@@ -126,7 +139,7 @@ def run_property(P, pid, tier, seed, replay):
     for mode, impl, model in runs:
         for line, io, mo in zip(lines, impl, model):
             evaluations += 1
-            if mo is not None and io != mo and not P.same(line, io, mo):
+            if mo is not None and io != mo and canon(io) != canon(mo) and not P.same(line, io, mo):
                 disagreements.append({"mode": mode, "case_line": line, "implementation": io, "model": mo})
             v = P.oracle(line, io, mode)
             if v:
